@@ -14,7 +14,7 @@ for pid in "$@"; do
     if grep -q '"status": "neutralised"' /verif/seeded/$pid$m/meta.json 2>/dev/null; then echo "$pid$m NEUTRALISED (see meta.json)"; continue; fi
     git -C $wt checkout -q -- . 
     if ! git -C $wt apply "$f" 2>/dev/null; then echo "$pid$m: patch does not apply"; continue; fi
-    out=$(RMK_REPO=$wt ${EXTRA_ENV:-} ./check $pid quick 2>&1 | tail -3 | tr '\n' ' ')
+    out=$(env RMK_REPO=$wt ${EXTRA_ENV:-} ./check $pid quick 2>&1 | tail -3 | tr '\n' ' ')
     case "$out" in *VIOLATION*no-failing-input-found*) r="CAUGHT(no-input)";; *VIOLATION*) r=CAUGHT;; *) r=MISSED;; esac
     echo "$pid$m $r :: $out"
   done
